@@ -140,6 +140,42 @@ impl C19 {
     }
 }
 
+impl C19 {
+    /// A sequence of binary-operator evaluations on ONE fresh thread: every call must return what the same call
+    /// returns on its own (the reference value), whatever was evaluated before it on that thread.
+    fn seq(&self, calls: &[(Op, BigUint, BigUint)]) -> Vec<Discrepancy> {
+        let case = json!({"kind": "seq", "calls": calls.iter().map(|(o, a, b)| json!({"op": format!("{:?}", o), "a": sdec(a), "b": sdec(b)})).collect::<Vec<_>>()});
+        let calls: Vec<(Op, BigUint, BigUint)> = calls.to_vec();
+        let h = std::thread::spawn(move || {
+            let mut bad: Vec<(usize, &'static str, String)> = vec![];
+            for (k, (op, a, b)) in calls.iter().enumerate() {
+                let want = ops::eval(*op, a, b);
+                let sop = subj_op(*op);
+                if *op != Op::Pow {
+                    let (fa, fb) = (to_fr(a), to_fr(b));
+                    match guard(|| sop.eval_fr(fa, fb)) {
+                        Ok(v) => if from_fr(&v) != want { bad.push((k, "eval_fr", format!("expected {} got {}", want, from_fr(&v)))) },
+                        Err(m) => bad.push((k, "eval_fr", format!("panic: {m}"))),
+                    }
+                }
+                let (ua, ub) = (to_u256(a), to_u256(b));
+                match guard(|| sop.eval(ua, ub)) {
+                    Ok(v) => if from_u256(&v) != want { bad.push((k, "eval", format!("expected {} got {}", want, from_u256(&v)))) },
+                    Err(m) => bad.push((k, "eval", format!("panic: {m}"))),
+                }
+            }
+            bad
+        });
+        let bad = h.join().unwrap_or_default();
+        let mut out = vec![];
+        if let Some((k, ev, d)) = bad.first() {
+            let opn = case["calls"][*k]["op"].as_str().unwrap_or("").to_string();
+            out.push(Discrepancy { key: format!("C19/{ev}/{opn}/after-other-calls/wrong-value"), case: case.clone(), detail: format!("call number {k} of the sequence: {d}") });
+        }
+        out
+    }
+}
+
 impl Prop for C19 {
     fn id(&self) -> &'static str { "C19" }
     fn level(&self) -> &'static str { "exploration" }
@@ -150,6 +186,10 @@ impl Prop for C19 {
             "duo" => self.duo(op_by_name(case["op"].as_str().unwrap()), &bdec(&case["a"]), &bdec(&case["b"]), &mut out),
             "uno" => self.uno(&bdec(&case["a"]), &mut out),
             "tres" => self.tres(&bdec(&case["c"]), &bdec(&case["a"]), &bdec(&case["b"]), &mut out),
+            "seq" => {
+                let calls: Vec<(Op, BigUint, BigUint)> = case["calls"].as_array().cloned().unwrap_or_default().iter().map(|c| (op_by_name(c["op"].as_str().unwrap_or("Add")), bdec(&c["a"]), bdec(&c["b"]))).collect();
+                out.extend(self.seq(&calls));
+            }
             _ => {}
         }
         out
@@ -210,10 +250,39 @@ impl Prop for C19 {
         }
         findings.report_all(out);
 
+        // history independence: sequences of calls on one fresh thread. Per operator every sequence of length 4 over
+        // the calls {op(a,x), op(b,x), op(a,y), op(b,y)}; per ordered pair of operators every sequence of length 3
+        // over {op1(a,x), op1(a,y), op2(a,x), op2(b,y)}
+        let (sa, sb, sx, sy) = (dec("12345678901234567890123"), p() - big(5), big(3), pow2(130) + big(7));
+        let mut seqs: Vec<Vec<(Op, BigUint, BigUint)>> = vec![];
+        for op in ops::ALL_OPS.iter() {
+            let calls = [(*op, sa.clone(), sx.clone()), (*op, sb.clone(), sx.clone()), (*op, sa.clone(), sy.clone()), (*op, sb.clone(), sy.clone())];
+            for code in 0..256usize {
+                seqs.push((0..4).map(|k| calls[(code >> (2 * k)) & 3].clone()).collect());
+            }
+        }
+        for o1 in ops::ALL_OPS.iter() {
+            for o2 in ops::ALL_OPS.iter() {
+                if o1 == o2 {
+                    continue;
+                }
+                let calls = [(*o1, sa.clone(), sx.clone()), (*o1, sa.clone(), sy.clone()), (*o2, sa.clone(), sx.clone()), (*o2, sb.clone(), sy.clone())];
+                for code in 0..64usize {
+                    seqs.push((0..3).map(|k| calls[(code >> (2 * k)) & 3].clone()).collect());
+                }
+            }
+        }
+        let sres = par_map(&seqs, ncpu(), |_, sq| self.seq(sq));
+        let nseq = seqs.len();
+        for r in sres {
+            findings.report_all(r);
+        }
+        evals += seqs.iter().map(|s| s.len() as u64).sum::<u64>();
+        ev.set("call_sequences_on_one_thread", json!(nseq));
         let nontrivial = evals; // every (operator, operand tuple) is a distinct case by construction
         ev.set("evaluations", json!(evals));
         ev.set("distinct_nontrivial", json!(nontrivial));
-        ev.set("rule", json!("Cartesian product: 20 binary operators x G x G (G = boundary grid {0,1,2,2^k-1,2^k,2^k+1,(p-1)/2,(p+1)/2,p-2,p-1} + seeded randoms, deduplicated), Shl/Shr additionally x shift counts 0..260 and p-k; Neg/Id x G; TernCond x {0,1,p-1} x Gq^2. Each tuple is evaluated by eval_fr (Montgomery) and eval (integer) and compared with the BigUint reference of circom's semantics. Every tuple is distinct (grid is deduplicated), so distinct_nontrivial = evaluations."));
+        ev.set("rule", json!("Cartesian product: 20 binary operators x G x G (G = boundary grid {0,1,2,2^k-1,2^k,2^k+1,(p-1)/2,(p+1)/2,p-2,p-1} + seeded randoms, deduplicated), Shl/Shr additionally x shift counts 0..260 and p-k; Neg/Id x G; TernCond x {0,1,p-1} x Gq^2. Each tuple is evaluated by eval_fr (Montgomery) and eval (integer) and compared with the BigUint reference of circom's semantics. Every tuple is distinct (grid is deduplicated), so distinct_nontrivial = evaluations. History independence: per operator every sequence of 4 calls over {op(a,x), op(b,x), op(a,y), op(b,y)} and per ordered operator pair every sequence of 3 calls over {op1(a,x), op1(a,y), op2(a,x), op2(b,y)}, each sequence on a fresh thread, every call compared with the reference."));
         ev.set("grid_size", json!(g.len()));
         ev.set("operators", json!(22));
         ev.set("exhaustive", json!(true));
